@@ -647,9 +647,73 @@ def errno_class_rule(P, rep, rid):
                 if not memo[t.name]:
                     offenders.append((c, base(t.name)))
         who = sorted({base(g_.name) for g_, _ in S[name]})
+        errno_defined_at_failure(P, rep, rid + 'd', F, who, S)
         rep.check(not offenders, rid, '%s (errno tested by %s)' % (base(name), ', '.join(who)), (offenders[0][0] if offenders else F.blocks[0][0]).loc(),
                   '%d i/o calls; every later call on a path to a return preserves errno' % len(ios) if not offenders else 'after the i/o call, %s is called (line %s) and does not preserve errno: when it fails itself (log on a full file-system) the caller sees its errno instead of EIO, counts a generic error and does not mark the stripe bad' % (offenders[0][1], offenders[0][0].line),
                   function=base(name), construct='errno preserved until the caller tests it')
+
+
+def errno_defined_at_failure(P, rep, rid, F, who, S):
+    """the callers read errno after a -1 result whatever made the function fail: a failing return that is reached without any system
+    call and without an assignment to errno (`the file is shorter than recorded`, a logical failure) leaves in errno what an EARLIER,
+    unrelated call of the same thread put there.  After one real EIO anywhere on the disk every later short file is classified as an
+    input/output error and its stripes are marked bad although only the file changed.  Rule: every path from the entry to a failing
+    result passes a system call of the storage layer, a storage function that obeys the same rule, or a store to errno."""
+    if rid not in rep.rules:
+        rep.rule(rid, 'storage functions whose failure is classified by errno in the callers: every path to a failing result passes an i/o system call or an assignment to errno (no stale errno is handed to the caller)', 4)
+    fails = [i for i in F.all_insts() if i.op == 'store' and F.expr(i.ops[1]) == '&retval' and F.const_of(i.ops[0]) == -1]
+    if not fails:
+        raise AnalysisBroken('%s: failing result not recognised' % F.name)
+    from .C09 import depends_on
+    cg = P.callgraph()
+    RW = {'pread', 'pwrite', 'read', 'write', 'lseek'}
+
+    def sets_errno_on_failure(c):
+        cal = c.callee or ''
+        if cal in IO_CALLS:
+            return True
+        if c.callee_full in P.functions and not P.functions[c.callee_full].decl:
+            # a function of the program that ends in a system call (advise_read, parity_split_find is not one): assumed to follow the
+            # errno convention of the storage layer when its failure is a failed system call
+            return any(base(x) in IO_CALLS for x in P.reachable([c.callee_full], cg))
+        return False
+    calls = [c for c in F.calls() if sets_errno_on_failure(c)]
+    cut = set()
+    for b_ in range(len(F.blocks)):
+        t = F.term(b_)
+        if t.op != 'br' or len(t.ops) != 3:
+            continue
+        ci = F.inst_of(t.ops[0])
+        if ci is None or ci.op != 'icmp':
+            continue
+        k = F.const_of(ci.ops[1])
+        src = [c for c in calls if depends_on(F, ci.ops[0], c.id)]
+        if not src or k is None:
+            continue
+        status_only = all((c.callee or '') not in RW for c in src)
+        fe = None                       # the edge taken when the call failed (ops[1] = false target, ops[2] = true target)
+        if ci.pred == 'slt' and k == 0 or ci.pred == 'eq' and k in (-1, 0xffffffff, 0xffffffffffffffff):
+            fe = t.ops[2][1]
+        elif ci.pred == 'sge' and k == 0 or ci.pred == 'ne' and k in (-1, 0xffffffff, 0xffffffffffffffff):
+            fe = t.ops[1][1]
+        elif status_only and ci.pred == 'ne' and k == 0:
+            fe = t.ops[2][1]
+        elif status_only and ci.pred == 'eq' and k == 0:
+            fe = t.ops[1][1]
+        if fe is not None:
+            cut.add((t.id, fe))
+    stops = set()
+    for i in F.all_insts():
+        if i.op == 'store':
+            t = F.inst_of(i.ops[1])
+            if t is not None and t.op == 'call' and t.callee == '__errno_location':
+                stops.add(i.id)
+    r_ = F.reach([F.entry()], stop=stops, cut_edges=cut, include_start=True)
+    bad = [x for x in fails if x.id in r_]
+    bad.sort(key=lambda x: x.line or 0)
+    rep.check(not bad, rid, '%s (errno tested by %s): errno is defined at every failing result' % (base(F.name), ', '.join(who)), (bad[0] if bad else fails[0]).loc(),
+              '%d failing results, each behind a system call or an errno assignment' % len(fails) if not bad else 'the failing result(s) at line %s are reached without a failed system call and without assigning errno (a logical failure: file shorter than recorded / position beyond the valid size): the caller classifies it with the errno left by an earlier, unrelated call -- after one EIO on the disk every file changed since the sync is counted as an input/output error and its stripes are marked bad' % ', '.join(str(x.line) for x in bad),
+              function=base(F.name), construct='stale errno at a failing result')
 
 
 def writer_error_scan_rule(P, rep, rid):
